@@ -827,7 +827,7 @@ def collect_typeinfo_bases():
         TI_BASES[g] = seen
 
 def emit_eh_runtime():
-    out = ['char* ll2c_exc_obj; char* ll2c_exc_type;',
+    out = ['__attribute__((weak)) char* ll2c_exc_obj; __attribute__((weak)) char* ll2c_exc_type;' if PFX else 'char* ll2c_exc_obj; char* ll2c_exc_type;',
            '/* does an exception of dynamic type t match a catch clause for type c (0 = catch all)? */',
            'static int ll2c_eh_match(char* t, char* c) {', '  if (c == 0 || t == c) return 1;']
     for g, bases in TI_BASES.items():
@@ -1221,7 +1221,7 @@ def translate_call(s, dst, decls, goto, bl):
         elif n.startswith('llvm.memset'): call = 'memset((char*)%s, %s, %s)' % (args[0].c, args[1].c, args[2].c)
         elif n.startswith('llvm.trap'): call = 'll2c_trap()'
         elif n.startswith('llvm.eh.typeid.for'):
-            tim = re.search(r'g_(_ZTI[A-Za-z0-9_]+)', args[0].c)
+            tim = re.search(r'g(?:%s|_)(_ZTI[A-Za-z0-9_]+)' % re.escape(PFX or '_'), args[0].c)
             ti = '@' + tim.group(1); TI_IDS.setdefault(ti, len(TI_IDS) + 1)
             call = '((uint32_t)%d)' % TI_IDS[ti]
         elif n.startswith('llvm.expect'): call = args[0].c
